@@ -29,7 +29,8 @@ MODES = ["good", "noise", "constant", "raise_recognised", "anti", "memorise", "o
 PROBES = ["fallback_taken", "fallback_desc_false", "model_kept", "all_untrained", "some_untrained", "explicit_error",
           "memorise_worse_branch", "override_on", "enc_pm1", "enc_10", "enc_bool", "parquet", "workers>1",
           "zero_scores_returned", "multi_file", "confidence_checked", "confidence_desc_false", "fold_aligned_feature",
-          "folds_disagree_on_best_feature", "all_trained_but_fallback", "confidence_rollup_level_checked", "confidence_repeated"]
+          "folds_disagree_on_best_feature", "all_trained_but_fallback", "confidence_rollup_level_checked", "confidence_repeated",
+          "feat_pass_compared_with_reference", "integer_best_feature"]
 RULE = (
     "For each sampled data set (planted strong feature, lower-is-better in half of them; 3 label encodings; text/Parquet) "
     "and fold count, EVERY assignment of {good, noise, constant, raise_recognised, anti, memorise, overfit} to the folds' estimators "
@@ -108,6 +109,9 @@ def scenarios(tier, batch_seed):
                 if dp["n_files"] == 2:
                     dp["size_factors"] = [1.0, rng.choice([1.0, 0.7])]
                     dp["n_spectra"] = max(dp["n_spectra"], rng.randint(200, 250))  # calibration is per (file, fold)
+                if (d + round_no + ("pm1", "10", "bool").index(enc)) % 3 == 0:
+                    # the planted best feature is integer-typed with magnitudes above 2**24 (fixed-point with an offset)
+                    dp["int_feature"] = {"idx": dp["strong"], "offset": rng.choice([2**30, 10**12]), "scale": rng.choice([20, 500])}
                 fold_choices = [3] if tier == "quick" else [2, 3, 4]
                 for folds in fold_choices:
                     base = _base(rng, dp, folds, override=False, fmt=rng.choice(["pin", "pin", "parquet"]))
@@ -146,6 +150,29 @@ def scenarios(tier, batch_seed):
             return
 
 
+def _reference_feat_pass(tables, held, thr):
+    """Per fold: (count, feature, desc) of the single feature/direction accepting most genuine targets on the fold's
+    training rows (every row not held out by it), or None when some q-value sits on the threshold."""
+    cols = tables[0]["meta"]["features"]
+    tags = np.concatenate([np.asarray(datagen.col(t, "tag")) for t in tables])
+    tg = np.concatenate([np.asarray(datagen.targets_of(t), bool) for t in tables])
+    vals = {f: np.concatenate([np.asarray(datagen.col(t, f), float) for t in tables]) for f in cols}
+    out = []
+    for h in held:
+        keep = ~np.isin(tags, np.asarray(h))
+        best = None
+        unsure = False
+        for f in cols:
+            for desc in (True, False):
+                a, q = refmodel.accepted_targets(vals[f][keep], tg[keep], thr, desc=desc)
+                if refmodel.near_threshold(q, thr):
+                    unsure = True
+                if best is None or a > best[0]:
+                    best = (a, f, desc)
+        out.append(None if unsure else best)
+    return out
+
+
 def run_scenario(scn, workdir):
     tables = P.build_tables(scn["data"])
     cfg = dict(scn["cfg"])
@@ -158,6 +185,7 @@ def run_scenario(scn, workdir):
         "parquet": int(scn["format"] == "parquet"),
         "workers>1": int(cfg["max_workers"] > 1),
         "multi_file": int(len(tables) > 1),
+        "integer_best_feature": int(bool(scn["data"].get("int_feature"))),
     }
     out = {
         "status": "ok",
@@ -259,6 +287,19 @@ def run_scenario(scn, workdir):
     if not cands:
         return uninf("no model recorded a best feature")
     best = max(c[0] for c in cands)
+    # what the best single feature really accepted on each fold's training rows (independent, double precision): the
+    # count a model records must be that number, otherwise the comparison below is made against the wrong yardstick
+    if not scn["cfg"].get("subset_max_train"):
+        ref = _reference_feat_pass(tables, held, cfg["train_fdr"])
+        for i, m in enumerate(models):
+            if m.feat_pass is None or i >= len(ref) or ref[i] is None:
+                continue
+            probes["feat_pass_compared_with_reference"] = 1
+            if int(m.feat_pass) != ref[i][0]:
+                return viol("best_feature_miscounted", f"fold {i}: the model recorded best feature {m.best_feat} (desc={m.desc}) "
+                            f"with {int(m.feat_pass)} accepted targets on its training rows, but feature {ref[i][1]} "
+                            f"(desc={ref[i][2]}) accepts {ref[i][0]} genuine targets there at {cfg['train_fdr']}",
+                            int_feature=bool(scn["data"].get("int_feature")), more=bool(int(m.feat_pass) > ref[i][0]))
     probes["folds_disagree_on_best_feature"] = int(len({(m.best_feat, m.desc) for m in models}) > 1)
     if is_feature is not None:
         probes["fallback_taken"] = 1
